@@ -292,8 +292,9 @@ def finish(run, ctx, proof):
                "model abstractions (Attr/Memattrs.v): topology = root cpuset + flat object list (type, gp_index, os_index, cpuset, local memory, subtype) "
                "taken from the harness after load/restrict/dup/xml (what restrict removes is C08's subject, the new topology is an input of the model); "
                "bitmaps are BSet values (C03); allocation failures not modelled; cached object pointers represented by gp_index plus an 'initialised' bit",
-               "theorems quantify over histories of the public API + restrict + dup meeting hist_ok (objects belong to the topology, set_value cpusets inside the root cpuset); "
-               "hwloc_internal_memattr_set_value by os_index and the XML export/import replay are modelled and compared with the C code on every run but are not covered by the invariant theorem",
+               "theorems quantify over histories of the public API + restrict + dup + XML round trips + hwloc_internal_memattr_set_value by the fields of an existing object, meeting hist_ok_x "
+               "(objects belong to the topology, set_value cpusets inside the root cpuset); preservation of stored VALUES by the XML replay and internal set_value addressed by os_index only "
+               "are modelled and compared with the C code on every run but not covered by a theorem",
                "ocaml/drv_c14.ml (script parsing, bignum <-> Coq N conversion, printing)"]
     if proof is None:
         return run.finish(None, level="proof", extra_cov={"obligations": 0, "discharged": 0, "checker_cmd": "n/a",
